@@ -12,7 +12,6 @@
 //   3. lets the device die (end of its scope),
 //   4. uses the reference through the public API (`borrow()` + `Getter<Command, _>::get`).
 // rustc accepts every one of them; Kani reports the dereference of a dead object in step 4.
-// (The eleventh accessor, PIDWrapper::get_terminal, is in c16_dangle_pid.rs.)
 #![allow(unused_imports, dead_code)]
 use crate::devices::*;
 use crate::verif_support::{reach, Er};
@@ -60,6 +59,44 @@ impl Updatable<Er> for NullEncoder {
         Ok(())
     }
 }
+struct NullMotor {
+    sd: SettableData<f32, Er>,
+}
+impl NullMotor {
+    fn new() -> Self {
+        Self { sd: SettableData::new() }
+    }
+}
+impl Settable<f32, Er> for NullMotor {
+    fn impl_set(&mut self, _v: f32) -> NothingOrError<Er> {
+        Ok(())
+    }
+    fn get_settable_data_ref(&self) -> &SettableData<f32, Er> {
+        &self.sd
+    }
+    fn get_settable_data_mut(&mut self) -> &mut SettableData<f32, Er> {
+        &mut self.sd
+    }
+}
+impl Updatable<Er> for NullMotor {
+    fn update(&mut self) -> NothingOrError<Er> {
+        Ok(())
+    }
+}
+fn new_pid_wrapper<'a>() -> wrappers::PIDWrapper<'a, NullMotor, Er> {
+    wrappers::PIDWrapper::new(
+        NullMotor::new(),
+        Time(0),
+        State::new_raw(0.0, 0.0, 0.0),
+        Command::new(PositionDerivative::Position, 0.0),
+        PositionDerivativeDependentPIDKValues::new(
+            PIDKValues::new(1.0, 0.0, 0.0),
+            PIDKValues::new(1.0, 0.0, 0.0),
+            PIDKValues::new(1.0, 0.0, 0.0),
+        ),
+    )
+}
+
 /// Stack variant: the device lives in an inner scope that ends before the reference is used.
 macro_rules! dangle_stack {
     ($name:ident, $mk:expr, $acc:ident $(, $arg:expr)?) => {
@@ -95,3 +132,7 @@ dangle_stack!(c16_dangle_differential_get_sum, Differential::<Er>::new(), get_su
 dangle_stack!(c16_dangle_actuator_wrapper_get_terminal, wrappers::ActuatorWrapper::<NullActuator, Er>::new(NullActuator::new()), get_terminal);
 //@ob witness=1 fn="GetterStateDeviceWrapper::get_terminal" at=src/devices/wrappers.rs:61 clause="WITNESS (expected to fail): safe program obtains the terminal reference, the GetterStateDeviceWrapper goes out of scope, the reference is used: dereference of a dead object"
 dangle_stack!(c16_dangle_getter_state_device_wrapper_get_terminal, wrappers::GetterStateDeviceWrapper::<NullEncoder, Er>::new(NullEncoder), get_terminal);
+// PIDWrapper::new allocates Rc<RefCell<..>> objects larger than CBMC's default field-sensitivity limit; without the
+// extra CBMC argument symbolic execution of the constructor does not finish.
+//@ob witness=1 cbmc="--max-field-sensitivity-array-size 1024" fn="PIDWrapper::get_terminal" at=src/devices/wrappers.rs:131 clause="WITNESS (expected to fail): safe program obtains the terminal reference, the PIDWrapper goes out of scope, the reference is used: dereference of a dead object"
+dangle_stack!(c16_dangle_pid_wrapper_get_terminal, new_pid_wrapper(), get_terminal);
